@@ -15,12 +15,12 @@ VARIABLE i
 
 ExactSeq(s) == [j \in 1..Len(s) |-> Exact(s[j])]
 \* content expected after a successful store of `w`, by the shape of the position
-ExpSeq(r, w) == LET B == ExactSeq(r.before) IN
+ExpSeq(r, w) == LET BS == ExactSeq(r.before) IN
   CASE r.shape = "replace" -> <<w>>                 \* m.f = v, m.r = [v], m.mv = {"k": v}, m.mk = {v: 1}
-    [] r.shape = "append"  -> B \o <<w>>            \* m.r.append(v)
-    [] r.shape = "set0"    -> <<w>> \o Tail(B)      \* m.r[0] = v
-    [] r.shape = "pair"    -> <<B[1], w>>           \* m.r = [preset, v]
-    [] r.shape = "mapval"  -> <<w>> \o B            \* m.mv["k"] = v   ("k" sorts before the preset key "p")
+    [] r.shape = "append"  -> BS \o <<w>>           \* m.r.append(v)
+    [] r.shape = "set0"    -> <<w>> \o Tail(BS)     \* m.r[0] = v
+    [] r.shape = "pair"    -> <<BS[1], w>>          \* m.r = [preset, v]
+    [] r.shape = "mapval"  -> <<w>> \o BS           \* m.mv["k"] = v   ("k" sorts before the preset key "p")
 MatchSeq(E, obs, r) == Len(E) = Len(obs) /\ \A j \in 1..Len(E) : Stored(E[j], r.kind, r.syn, obs[j])
 SeqVEq(a, b) == Len(a) = Len(b) /\ \A j \in 1..Len(a) : VEq(a[j], b[j])
 \* m.mk[v] = 1: the key is present exactly once and nothing else changed
@@ -53,7 +53,8 @@ ClearOK(r) == /\ r.op.ok
 Good(r) ==
   /\ ~r.op.panic            \* never a host panic
   /\ r.rb.ok
-  /\ IF r.val.t = "none" THEN (IF r.clear = "no" THEN RejectOK(r) ELSE ClearOK(r))
+  /\ IF r.shape = "lookup" THEN RtOK(r) /\ SeqVEq(r.rb.v, r.before)      \* m.mk[v], v in m.mk: any result or error, no effect
+     ELSE IF r.val.t = "none" THEN (IF r.clear = "no" THEN RejectOK(r) ELSE ClearOK(r))
      ELSE LET j == Judge(r.kind, r.syn, r.val) IN
           CASE j.d = "accept" -> AcceptOK(r, j.want)
             [] j.d = "reject" -> RejectOK(r)
